@@ -141,13 +141,27 @@ def clone (mx : Nat) (r : Rep) : M Rep :=
     let n ← ofBuf "repr.rs:487 transmute" nb
     pure (n.withSign neg)
 
+/-- `if cap > 2 { Buffer::deallocate_raw(NonNull::new_unchecked(self.data.heap.0), cap) }`
+    (repr.rs:504 and 519): release the old buffer if there is one -/
+def releaseOld (self : Rep) : M Unit :=
+  match self with
+  | heap id cap _ _ => deallocateRaw id cap
+  | inline .. => pure ()
+
+/-- the final `copy_nonoverlapping(src_ptr, self.data.heap.0, src_len)` (repr.rs:531) when the old
+    buffer is kept -/
+def copyInto (self : Rep) (sid : Nat) (sws : List Nat) (sneg : Bool) : M Rep :=
+  match self with
+  | heap id cap _ _ => do
+    emits (rd sid 0 sws.length ++ wr id 0 sws.length)
+    pure (heap id cap sws sneg)
+  | inline .. => fault (.ub "repr.rs:531 copy through inline data")
+
 /-- `<Repr as Clone>::clone_from` — unsafe block repr.rs:498 -/
 def cloneFrom (mx : Nat) (self src : Rep) : M Rep :=
   match src with
   | inline lo hi code neg => do         -- `src_cap <= 2`
-    match self with
-    | heap id cap _ _ => deallocateRaw id cap     -- repr.rs:504
-    | inline .. => pure ()
+    releaseOld self                       -- repr.rs:504
     pure (inline lo hi code neg)
   | heap sid _ sws sneg =>
     let srcLen := sws.length
@@ -157,19 +171,12 @@ def cloneFrom (mx : Nat) (self src : Rep) : M Rep :=
         let m ← maxCompactCapacityChecked mx srcLen
         pure (decide (self.capacity > m)) : M Bool)
     if realloc then do
-      match self with
-      | heap id cap _ _ => deallocateRaw id cap   -- repr.rs:519
-      | inline .. => pure ()
+      releaseOld self                     -- repr.rs:519
       let newCap ← defaultCapacityChecked mx srcLen
       let nid ← allocateRaw mx newCap
       emits (rd sid 0 srcLen ++ wr nid 0 srcLen)  -- repr.rs:531
       pure (heap nid newCap sws sneg)
-    else
-      match self with
-      | heap id cap _ _ => do
-        emits (rd sid 0 srcLen ++ wr id 0 srcLen) -- repr.rs:531
-        pure (heap id cap sws sneg)
-      | inline .. => fault (.ub "repr.rs:531 copy through inline data")
+    else copyInto self sid sws sneg
 
 /-- `ones_word(n)` -/
 def onesWord (n : Nat) : Nat := 2 ^ n - 1
